@@ -40,7 +40,7 @@ func attrScope(c *props.Ctx) {
 			continue
 		}
 		atr := strParams[0]
-		scopes, good := 0, 0
+		scopes, good, misplaced := 0, 0, 0
 		var visit func(f *ssa.Function, bind map[*ssa.FreeVar]ssa.Value)
 		visit = func(f *ssa.Function, bind map[*ssa.FreeVar]ssa.Value) {
 			ssau.AllInstrs(f, func(in ssa.Instruction) {
@@ -77,6 +77,14 @@ func attrScope(c *props.Ctx) {
 					if resolveToParam(args[0], bind, 0) == atr {
 						good++
 					}
+					// the element must land in slot i of the primitive list, for every primitive: stored at the
+					// scan's own primitive number, unconditionally (a skipped or compacted primitive shifts the
+					// identity every query reports)
+					if v, ok := x.(ssa.Value); ok {
+						if !storedAtOwnIndex(v, f) {
+							misplaced++
+						}
+					}
 				}
 			})
 		}
@@ -86,6 +94,11 @@ func attrScope(c *props.Ctx) {
 		}
 		n++
 		construct := c.P.FuncName(fn) + "(" + atr.Name() + ")→Scope"
+		if misplaced > 0 {
+			c.R.Violate("IDENT-2", c.P.FuncName(fn)+"→elements", c.P.Pos(fn.Pos()), "a scoped primitive is not stored at its own primitive number on every path (appended, skipped under a condition, or stored elsewhere): element i of the tree is no longer primitive i, so every query reports shifted identities")
+		} else {
+			c.R.Hold("IDENT-2", c.P.FuncName(fn)+"→elements", c.P.Pos(fn.Pos()), "element i of the tree is primitive i: every scoped primitive is stored at the scan's own index, unconditionally")
+		}
 		if good == scopes {
 			c.R.Hold("ATTR-2", construct, c.P.Pos(fn.Pos()), "every element of the tree is scoped over the attribute parameter")
 		} else {
@@ -94,6 +107,141 @@ func attrScope(c *props.Ctx) {
 	}
 	_ = mc.ModelingPath
 	c.R.Floor("ATTR-2", 1)
+	c.R.Floor("IDENT-2", 1)
+	attrReach(c)
+}
+
+// storedAtOwnIndex: v (a Scope result inside the scan callback f) is stored into slice[i] with i the callback's
+// integer parameter, in a block that dominates every return of the callback.
+func storedAtOwnIndex(v ssa.Value, f *ssa.Function) bool {
+	var idxParam *ssa.Parameter
+	for _, p := range f.Params {
+		if b, ok := p.Type().Underlying().(*types.Basic); ok && b.Info()&types.IsInteger != 0 {
+			idxParam = p
+		}
+	}
+	if idxParam == nil {
+		return false
+	}
+	ok := false
+	var walk func(x ssa.Value, depth int)
+	walk = func(x ssa.Value, depth int) {
+		if depth > 4 {
+			return
+		}
+		for _, r := range *x.Referrers() {
+			switch y := r.(type) {
+			case *ssa.Store:
+				ia, isIA := y.Addr.(*ssa.IndexAddr)
+				if !isIA || y.Val != x || ia.Index != idxParam {
+					continue
+				}
+				dom := true
+				ssau.AllInstrs(f, func(in ssa.Instruction) {
+					if ret, isRet := in.(*ssa.Return); isRet && !y.Block().Dominates(ret.Block()) {
+						dom = false
+					}
+				})
+				if dom {
+					ok = true
+				}
+			case *ssa.MakeInterface:
+				walk(y, depth+1)
+			case *ssa.ChangeInterface:
+				walk(y, depth+1)
+			}
+		}
+	}
+	walk(v, 0)
+	return ok
+}
+
+// attrReach (ATTR-3): in the call tree of the Primitive.Scope implementations (package modeling), a function that
+// takes an attribute-name parameter reads attribute data through that parameter only — never through a constant
+// attribute name: a helper that ignores its attribute parameter makes the scoped element measure another
+// attribute's geometry than the one the tree was asked for.
+func attrReach(c *props.Ctx) {
+	sp := c.P.SSAPkg("modeling")
+	if sp == nil {
+		return
+	}
+	var roots []*ssa.Function
+	for _, fn := range c.P.FuncsOf(sp) {
+		if fn.Name() == "Scope" && fn.Signature.Recv() != nil && fn.Signature.Params().Len() == 1 {
+			roots = append(roots, fn)
+		}
+	}
+	seen := map[*ssa.Function]bool{}
+	var order []*ssa.Function
+	var visit func(f *ssa.Function)
+	visit = func(f *ssa.Function) {
+		if f == nil || seen[f] || f.Pkg != sp || len(f.Blocks) == 0 {
+			return
+		}
+		seen[f] = true
+		order = append(order, f)
+		ssau.AllInstrs(f, func(in ssa.Instruction) {
+			if ci, ok := in.(ssa.CallInstruction); ok {
+				visit(ci.Common().StaticCallee())
+			}
+		})
+		for _, a := range f.AnonFuncs {
+			visit(a)
+		}
+	}
+	for _, r := range roots {
+		visit(r)
+	}
+	n := 0
+	for _, f := range order {
+		if c.P.IsControl(f.Pos()) {
+			continue
+		}
+		var sparam *ssa.Parameter
+		for _, p := range f.Params {
+			if b, ok := p.Type().Underlying().(*types.Basic); ok && b.Kind() == types.String {
+				sparam = p
+			}
+		}
+		if sparam == nil {
+			continue
+		}
+		n++
+		constUse := ""
+		ssau.AllInstrs(f, func(in ssa.Instruction) {
+			switch x := in.(type) {
+			case *ssa.Lookup:
+				if k, ok := x.Index.(*ssa.Const); ok && k.Value != nil {
+					if mt, ok := x.X.Type().Underlying().(*types.Map); ok && types.Identical(mt.Key(), types.Typ[types.String]) {
+						constUse = "map lookup under the constant " + k.Value.ExactString()
+					}
+				}
+			case ssa.CallInstruction:
+				cal := x.Common().StaticCallee()
+				if cal == nil || cal.Pkg != sp {
+					return
+				}
+				for i, a := range x.Common().Args {
+					if k, ok := a.(*ssa.Const); ok && k.Value != nil && i < len(cal.Params) {
+						if b, ok := cal.Params[i].Type().Underlying().(*types.Basic); ok && b.Kind() == types.String {
+							constUse = "call of " + cal.Name() + " with the constant " + k.Value.ExactString()
+						}
+					}
+				}
+			}
+		})
+		construct := c.P.FuncName(f) + "(" + sparam.Name() + ")"
+		switch {
+		case constUse != "":
+			c.R.Violate("ATTR-3", construct, c.P.Pos(f.Pos()), "reached from a Scope implementation with an attribute parameter, but reads attribute data by a constant name ("+constUse+"): the scoped element measures another attribute than the tree was built over")
+		case len(*sparam.Referrers()) == 0:
+			c.R.Violate("ATTR-3", construct, c.P.Pos(f.Pos()), "reached from a Scope implementation, but its attribute parameter is never used")
+		default:
+			c.R.Hold("ATTR-3", construct, c.P.Pos(f.Pos()), "attribute data is read through the attribute parameter only")
+		}
+	}
+	c.R.Extra["scope_call_tree_functions"] = len(order)
+	c.R.Floor("ATTR-3", 3)
 }
 
 func isOctTreePtr(t types.Type) bool {
